@@ -810,10 +810,10 @@ func verifyFunc(w *World, fi *FuncInfo, sweep bool) (res *FuncResult) {
 					}
 				}
 				if errIdx >= 0 && errIdx < len(vals) {
-					e.emit(st, "post", "propagates["+site+"]", "(=> (isErr "+et+") (isErr "+vals[errIdx]+"))", c.PropagatesTags, fi.Decl.Pos(), "a failure of "+site+" is a failure of "+fi.Name)
+					e.emit(st, "prop", "propagates["+site+"]", "(=> (isErr "+et+") (isErr "+vals[errIdx]+"))", c.PropagatesTags, fi.Decl.Pos(), "a failure of "+site+" is a failure of "+fi.Name)
 				} else if errIdx < 0 {
 					// a function without an error result (a tool's main): it must not reach its end after a failed call
-					e.emit(st, "post", "propagates["+site+"]", "(not (isErr "+et+"))", c.PropagatesTags, fi.Decl.Pos(), fi.Name+" ends normally only if "+site+" succeeded")
+					e.emit(st, "prop", "propagates["+site+"]", "(not (isErr "+et+"))", c.PropagatesTags, fi.Decl.Pos(), fi.Name+" ends normally only if "+site+" succeeded")
 				}
 			}
 		}
